@@ -147,6 +147,18 @@ theorem assignDemandR_nodup (s : Reg) (n p : Name) (i : NodeInfo) (hp : p ∉ s.
   obtain ⟨h1, h2, h3, h4, h5, h6⟩ := h
   refine ⟨AL.nodup_keys_set _ _ _ h1, h2, List.Nodup.append h3 (List.nodup_singleton p) (by simpa using hp), h4, h5, ?_⟩
   typed_nodup h6
+theorem clearDemandsR_nodup (s : Reg) (n : Name) (i : NodeInfo) (h : Clause.nodup s) : Clause.nodup (clearDemandsR s n i) := by
+  unfold clearDemandsR; reg_nodup h
+theorem renameSourceR_nodup (s : Reg) (old new : Name) (si : SourceInfo) (h : Clause.nodup s) : Clause.nodup (renameSourceR s old new si) := by
+  unfold renameSourceR
+  rw [nodup_iff] at *
+  obtain ⟨h1, h2, h3, h4, h5, h6⟩ := h
+  refine ⟨?_, ?_, ?_, ?_, AL.nodup_keys_set _ _ _ (AL.nodup_keys_del _ _ h5), ?_⟩
+  · reg_norm; exact h1
+  · reg_norm; exact h2
+  · reg_norm; exact h3
+  · reg_norm; exact h4
+  · typed_nodup h6
 theorem delNodeR_nodup (s : Reg) (key : Name) (i : NodeInfo) (h : Clause.nodup s) : Clause.nodup (delNodeR s key i) := by
   unfold delNodeR; reg_nodup h
 theorem delLinkR_nodup (s : Reg) (key : Name) (i : LinkInfo) (h : Clause.nodup s) : Clause.nodup (delLinkR s key i) := by
@@ -238,6 +250,10 @@ theorem setSourceNodeR_obj (s : Reg) (n node : Name) (si : SourceInfo) : (setSou
   unfold setSourceNodeR; reg_obj
 theorem assignDemandR_obj (s : Reg) (n p : Name) (i : NodeInfo) : (assignDemandR s n p i).usage .patternObj = s.usage .patternObj := by
   unfold assignDemandR; reg_obj
+theorem clearDemandsR_obj (s : Reg) (n : Name) (i : NodeInfo) : (clearDemandsR s n i).usage .patternObj = s.usage .patternObj := by
+  unfold clearDemandsR; reg_obj
+theorem renameSourceR_obj (s : Reg) (old new : Name) (si : SourceInfo) : (renameSourceR s old new si).usage .patternObj = s.usage .patternObj := by
+  unfold renameSourceR; reg_obj
 theorem delNodeR_obj (s : Reg) (key : Name) (i : NodeInfo) : (delNodeR s key i).usage .patternObj = s.usage .patternObj := by
   unfold delNodeR; reg_obj
 theorem delLinkR_obj (s : Reg) (key : Name) (i : LinkInfo) : (delLinkR s key i).usage .patternObj = s.usage .patternObj := by
@@ -368,6 +384,10 @@ theorem setSourceNodeR_usageNodup (s : Reg) (n node : Name) (si : SourceInfo) (h
   unfold setSourceNodeR; usage_nodup h
 theorem assignDemandR_usageNodup (s : Reg) (n p : Name) (i : NodeInfo) (h : UsageNodup s) : UsageNodup (assignDemandR s n p i) := by
   unfold assignDemandR; usage_nodup h
+theorem clearDemandsR_usageNodup (s : Reg) (n : Name) (i : NodeInfo) (h : UsageNodup s) : UsageNodup (clearDemandsR s n i) := by
+  unfold clearDemandsR; usage_nodup h
+theorem renameSourceR_usageNodup (s : Reg) (old new : Name) (si : SourceInfo) (h : UsageNodup s) : UsageNodup (renameSourceR s old new si) := by
+  unfold renameSourceR; usage_nodup h
 theorem delNodeR_usageNodup (s : Reg) (key : Name) (i : NodeInfo) (h : UsageNodup s) : UsageNodup (delNodeR s key i) := by
   unfold delNodeR; usage_nodup h
 theorem delLinkR_usageNodup (s : Reg) (key : Name) (i : LinkInfo) (h : UsageNodup s) : UsageNodup (delLinkR s key i) := by
